@@ -42,7 +42,16 @@ EXTRA = {
             ("SafeC.Conv.Libc.mbsrtowcs_shape", "SafeC.Proofs.ConvLibc", "lemma", "count returned vs cells stored: (size_t)-1, or count <= cells <= count + 1"),
             ("SafeC.Conv.stored_then_zeroed", "SafeC.Proofs.ConvWrap", "lemma", "dest after 'libc stored out, wrapper zeroed n cells from index k': no fault, extent, prefix = out, zeros"),
             ("SafeC.Conv.tailW_ok", "SafeC.Proofs.ConvWrap", "lemma", "success tail of mbstowcs_s/mbsrtowcs_s for an arbitrary libc result"),
-            ("SafeC.Conv.tailB_ok", "SafeC.Proofs.ConvWrap", "lemma", "success tail of wcstombs_s/wcsrtombs_s for an arbitrary libc result")],
+            ("SafeC.Conv.tailB_ok", "SafeC.Proofs.ConvWrap", "lemma", "success tail of wcstombs_s/wcsrtombs_s for an arbitrary libc result"),
+            ("SafeC.Conv.Libc.utf8Body_ok", "SafeC.Proofs.ConvDecode", "lemma", "converse codec, one character: whatever glibc's UTF-8 decoder accepts is exactly the encoder's form of the value delivered (5 length classes, omega)"),
+            ("SafeC.Conv.Libc.body_prefix_incomplete", "SafeC.Proofs.ConvMbs", "lemma", "a proper non-empty prefix of an encoding is an incomplete (never an illegal) sequence"),
+            ("SafeC.Conv.Libc.mbMain_window", "SafeC.Proofs.ConvMbs", "lemma", "the gconv main loop on a window (any prefix) of a valid string: whole characters, then used up at a boundary / inside a character / output full"),
+            ("SafeC.Conv.Libc.gconvMb_window", "SafeC.Proofs.ConvMbs", "lemma", "the same for one step call entered with a pending state (consume_incomplete through the staging buffer)"),
+            ("SafeC.Conv.Libc.mbsLoop_valid", "SafeC.Proofs.ConvMbsLoop", "lemma", "loop invariant of glibc's mbsrtowcs window loop on a valid terminated string, every limit and genuine entry state: = character-by-character decoding"),
+            ("SafeC.Conv.Libc.wcsrtombs_valid", "SafeC.Proofs.ConvWcs", "lemma", "wcsrtombs model on a valid terminated wide string = encodeAll limited to the whole characters that fit"),
+            ("SafeC.Conv.Libc.mbs_query_valid", "SafeC.Proofs.ConvQuery", "lemma", "mbsrtowcs(NULL, ...) on ANY terminated source: no illegal sequence reported => the source is the encoding of some ws and the count is |ws|"),
+            ("SafeC.Conv.Libc.mbs_query_valid_st", "SafeC.Proofs.ConvQuerySt", "lemma", "the same entered with any genuine (incomplete-sequence) conversion state: ps ++ source valid, ps a proper prefix of the first character"),
+            ("SafeC.Conv.Libc.wcs_query_valid", "SafeC.Proofs.ConvQuery", "lemma", "wcsrtombs(NULL, ...) on ANY terminated wide source: no illegal character reported => every character encodable and the count is the byte length")],
     "C16": [("SafeC.Sort.cycleGo_perm", "SafeC.Proofs.SortRel", "lemma", "the element moves of cycle() (tmp = a[ar0]; a[ar_i] = a[ar_i+1]; a[ar_last] = tmp), ANY position list incl. repeated positions: result is a permutation"),
             ("SafeC.Sort.smooth_rel", "SafeC.Proofs.SortRel", "lemma", "the whole smoothsort (main loop, final trinkle, dismantling loop), any bit vector/pshift/table state, any comparator: permutation + logged comparisons in range with the caller's ctx"),
             ("SafeC.Sort.bsearchLoop_spec", "SafeC.Proofs.Bsearch", "lemma", "loop invariant of the halving loop on a partitioned array: left of the window compares greater, right of it less"),
